@@ -1,2 +1,84 @@
-/- placeholder driver for C12: replaced when the check for C12 is built -/
-def main : IO Unit := IO.println "not-built"
+import CashewsVerif.Driver.Proto
+import CashewsVerif.Model.Tags
+/- Driver for C12: runs tagged command histories on the `Tags` model.
+
+  case <batch> <nkeys> <reg>      reg = `-` or `k:t+t;k:t;...` (what `get_key_tags` yields per key)
+  set K V TTL COND TAGS | incr K BY TTL TAGS | call K V TTL TAGS      TAGS = `-` or `t+t`
+  get K | exists K | delete K | delmany K.. | delmatch K.. | deltags T.. | adv N | purge
+  dump                            (debugging only)
+
+Answer: `model=<out>`; for `deltags` additionally the ghost verdict of the property on the state before
+the command: `die=` keys whose latest write carried one of the tags, `stay=` keys that carried none of
+them since their last explicit deletion. -/
+open CashewsVerif CashewsVerif.Proto CashewsVerif.Tags
+
+structure DSt where
+  cfg : Cfg
+  st : St
+
+def parseTags? (s : String) : Option (List Nat) :=
+  if s = "-" then some [] else allSome ((s.splitOn "+").map String.toNat?)
+
+def parseReg? (s : String) : Option (List (Nat × List Nat)) :=
+  if s = "-" then some []
+  else allSome ((s.splitOn ";").map fun ent =>
+    match ent.splitOn ":" with
+    | [k, ts] => do pure ((← k.toNat?), (← parseTags? ts))
+    | _ => none)
+
+def regFun (tbl : List (Nat × List Nat)) (k : Nat) : List Nat :=
+  match tbl.find? (·.1 = k) with
+  | some (_, ts) => ts
+  | none => []
+
+def parseNats? (ws : List String) : Option (List Nat) := allSome (ws.map String.toNat?)
+
+def parseOp? : List String → Option TOp
+  | ["set", k, v, ttl, c, tags] => do
+    pure (.set (← k.toNat?) (← parseVal? v) (← parseTtl? ttl) (← parseCond? c) (← parseTags? tags))
+  | ["incr", k, b, ttl, tags] => do pure (.incr (← k.toNat?) (← b.toInt?) (← parseTtl? ttl) (← parseTags? tags))
+  | ["call", k, v, ttl, tags] => do pure (.call (← k.toNat?) (← parseVal? v) (← parseTtl? ttl) (← parseTags? tags))
+  | ["get", k] => do pure (.get (← k.toNat?))
+  | ["exists", k] => do pure (.exists_ (← k.toNat?))
+  | ["delete", k] => do pure (.delete (← k.toNat?))
+  | "delmany" :: ks => do pure (.deleteMany (← parseNats? ks))
+  | "delmatch" :: ks => do pure (.deleteMatch (← parseNats? ks))
+  | "deltags" :: ts => do pure (.deleteTags (← parseNats? ts))
+  | ["adv", dt] => do pure (.adv (← dt.toNat?))
+  | ["purge"] => some .purge
+  | _ => none
+
+def showNats (ks : List Nat) : String := ",".intercalate (ks.map toString)
+
+def showDl : Option Nat → String
+  | none => "-"
+  | some d => toString d
+
+def dump (d : DSt) : String :=
+  let kvs := d.cfg.keys.filterMap fun k => (d.st.kv k).map fun e => s!"{k}={showVal e.val}@{showDl e.dl}"
+  let tss := (List.range 16).filterMap fun t => (d.st.ts t).map fun e => s!"{t}={showVal e.val}@{showDl e.dl}"
+  s!"now={d.st.now} kv[{" ".intercalate kvs}] ts[{" ".intercalate tss}]"
+
+def step' (d : DSt) (line : String) : DSt × String :=
+  match words line with
+  | ["case", batch, nkeys, reg] =>
+    match batch.toNat?, nkeys.toNat?, parseReg? reg with
+    | some b, some n, some tbl =>
+      ({ cfg := { tagOf := regFun tbl, batch := b, keys := List.range n }, st := Tags.init }, "ok")
+    | _, _, _ => (d, "bad-op")
+  | ["dump"] => (d, dump d)
+  | ws =>
+    match parseOp? ws with
+    | none => (d, "bad-op")
+    | some op =>
+      let r := Tags.step d.cfg d.st op
+      let extra := match op with
+        | .deleteTags tl =>
+          let die := d.cfg.keys.filter fun k => tl.any fun t => (d.st.last k).contains t
+          let stay := d.cfg.keys.filter fun k => tl.all fun t => !(d.st.since k).contains t
+          s!" die={showNats die} stay={showNats stay}"
+        | _ => ""
+      ({ d with st := r.1 }, s!"model={showOut r.2}{extra}")
+
+def main : IO Unit :=
+  mainLoop step' { cfg := { tagOf := fun _ => [], batch := 100, keys := [] }, st := Tags.init }
